@@ -311,6 +311,50 @@ func c01Attacks() []attack {
 			}
 			x.resp.InsertAt(x.slotIndex(), x.cand(ev))
 		}},
+		{"evil-assertion-own-prefix", func(x *c01x) {
+			// the evil assertion written with a prefix of its own bound to the SAML namespace: a real candidate
+			ev := x.evil("")
+			reprefix(ev, "saml", "a")
+			ev.Decl = [][2]string{{"a", nsA}}
+			x.resp.InsertAt(x.slotIndex(), x.cand(ev))
+		}},
+		{"evil-assertion-default-namespace", func(x *c01x) {
+			ev := x.evil("")
+			reprefix(ev, "saml", "")
+			ev.Decl = [][2]string{{"", nsA}}
+			x.resp.InsertAt(x.slotIndex(), x.cand(ev))
+		}},
+		{"saml-prefix-rebound-around-genuine", func(x *c01x) {
+			// a wrapper re-binds the saml prefix: the genuine assertion inside it is no longer a SAML assertion
+			if x.lay.enc {
+				return
+			}
+			w := E("x", "Wrapper", nil, x.a.Clone())
+			w.Decl = [][2]string{{"saml", "urn:evil"}}
+			x.replaceSlot(w)
+		}},
+		{"saml-prefix-rebound-on-evil-response", func(x *c01x) {
+			// outer Response re-binds saml to a foreign namespace and carries a look-alike assertion;
+			// the genuine, signed Response sits inside and re-declares nothing
+			rs, _ := validSpecs(x.cfg, x.now, x.id+"-outer")
+			ev := x.evil("")
+			outer := buildResponse(rs, ev, E("samlp", "Extensions", nil, x.resp))
+			outer.Decl = [][2]string{{"saml", "urn:evil"}}
+			if x.ar != nil {
+				for i, k := range x.ar.Kids {
+					if k == x.resp {
+						x.ar.Kids[i] = outer
+					}
+				}
+			} else {
+				x.root = outer
+			}
+			x.resp = outer
+		}},
+		{"signature-prefix-rebound", func(x *c01x) {
+			// an ancestor re-binds the ds prefix; the Signature element declares ds itself, so nothing changes
+			x.resp.Decl = append(x.resp.Decl, [2]string{"ds", "urn:evil"})
+		}},
 		{"keyinfo-removed", func(x *c01x) { x.eachSig(func(s *Node) { s.SetKeyInfo(kiNone, 0) }) }},
 		{"keyinfo-keyvalue-only", func(x *c01x) { x.eachSig(func(s *Node) { s.SetKeyInfo(kiEmpty, 0) }) }},
 		{"keyinfo-untrusted-cert", func(x *c01x) { x.eachSig(func(s *Node) { s.SetKeyInfo(kiCert, 9) }) }},
@@ -567,5 +611,16 @@ func runC01(c *Ctx) {
 		}
 		c.Count("attack/raw-bytes")
 		addRun(c, gb, r, map[string]string{"attack": "raw-bytes", "raw": raw}, false)
+	}
+}
+
+// reprefix rewrites the prefix of every element of the subtree (abstractly nothing changes as long as
+// the new prefix is bound to the same namespace).
+func reprefix(n *Node, from, to string) {
+	if n.Kind == kEl && n.Prefix == from {
+		n.Prefix = to
+	}
+	for _, k := range n.Kids {
+		reprefix(k, from, to)
 	}
 }
